@@ -117,6 +117,42 @@ def run_case(ctx, case):
                     ctx.count('failure_paths_logged')
                     if s3:
                         scan_result(ctx, rig.Result(s3[0]), 'auth-failure')
+            # 1b. a key in a Transparent format (key material is a structure): the decoder rejects it - the canary must
+            #     not reach the log through the exception text; and answers refused for being too large
+            for _ in range(3):
+                val = canary(ctx, rng, 'value:transparent', 32)
+                item = (T.T_BATCH_ITEM, T.STRUCTURE, [
+                    (T.T_OPERATION, T.ENUM, E.Operation.REGISTER.value),
+                    (T.T_REQUEST_PAYLOAD, T.STRUCTURE, [
+                        (0x420057, T.ENUM, E.ObjectType.SYMMETRIC_KEY.value),
+                        (0x420091, T.STRUCTURE, []),
+                        (0x42008F, T.STRUCTURE, [(0x420040, T.STRUCTURE, [
+                            (0x420042, T.ENUM, E.KeyFormatType.TRANSPARENT_SYMMETRIC_KEY.value),
+                            (0x420045, T.STRUCTURE, [(0x420043, T.STRUCTURE, [(0x42003F, T.BYTES, val)])]),
+                            (0x420028, T.ENUM, E.CryptographicAlgorithm.AES.value), (0x42002A, T.INTEGER, 256)])])])])
+                v = rng.choice(((1, 0), (1, 2), (1, 4)))
+                hdr = (T.T_REQUEST_HEADER, T.STRUCTURE, [
+                    (T.T_PROTOCOL_VERSION, T.STRUCTURE, [(T.T_PV_MAJOR, T.INTEGER, v[0]), (T.T_PV_MINOR, T.INTEGER, v[1])]),
+                    (T.T_BATCH_COUNT, T.INTEGER, 1)])
+                fr = T.encode((T.T_REQUEST_MESSAGE, T.STRUCTURE, [hdr, item]))
+                s4, e4 = rig.session_roundtrip(srv.engine, fr, cert, rng)
+                ctx.ev()
+                ctx.count('failure_paths_logged')
+                if s4:
+                    scan_result(ctx, rig.Result(s4[0]), 'transparent-key')
+            for kind, (u, val) in list(uids.items()):
+                for mx in (8, 64, 150):
+                    for op in (op_get(u), op_get_attributes(u)):
+                        v = rng.choice(rig.VERSIONS)
+                        try:
+                            fr = rig.encode_request(rig.build_request(v, [op], max_size=mx), v)
+                        except Exception:
+                            continue
+                        s5, e5 = rig.session_roundtrip(srv.engine, fr, cert, rng)
+                        ctx.ev()
+                        ctx.count('too_large_paths')
+                        if s5:
+                            scan_result(ctx, rig.Result(s5[0]), 'too-large')
             # 2. operations carrying secrets as parameters
             if 'sym' in uids:
                 ku, kv = uids['sym']
